@@ -10,12 +10,15 @@ package ledger
 // this ledger read-only; every case gets its own BlockEvaluator for the next round.
 //
 // Enumerated (complete product, no sampling):
-//   evaluator state  prefix in {empty, one committed single payment P1, one committed 4-member
-//                    effectful group P4 (leased pay, asset opt-in, app global write, box create)}
+//   evaluator state  prefix in {empty, one committed single payment P1, one committed 5-member
+//                    effectful group P4 (leased pay, asset opt-in, app global write, box create,
+//                    app_params_set rewriting the app params)}
 //   group size n     in {1,2,3,4,16}  (+ the oversize boundary n=17)
 //   failing position p in [0,n)
-//   rotation         which of the 4 effect kinds each non-failing member has
-//                    (member i does effect (i+rot)%4: pay, asset opt-in, app global write, box create)
+//   rotation         which of the 6 effect kinds each non-failing member has
+//                    (member i does effect (i+rot)%6: pay, asset opt-in, app global write, box create,
+//                    app_params_set on the app whose params were rewritten earlier in the block,
+//                    box_splice on a box created earlier in the block / living in the ledger)
 //   failure kind     overspend, below-min-balance, bad group id, missing member, wrong auth
 //                    address, rekeyed sender authorized by the old key, rejecting app, erroring
 //                    app, app whose inner payment fails, fee shortfall of the pooled group, not
@@ -25,7 +28,7 @@ package ledger
 //                    opted in, box write budget exceeded, malformed member, panic injected through
 //                    the EvalTracer while member p is evaluated, group of 17
 //   tracer           every case again with a non-nil EvalTracer (child deltas() are then computed
-//                    for failing groups too); quick tier: only for rotation 0
+//                    for failing groups too); quick tier: only for rotations 0 and 4
 //   second layer     (E-SEQ, depth 2) every ordered pair of failing groups of size <= 2 (quick)
 //                    / <= 3 (thorough) on the SAME evaluator before the valid follow-up group.
 //
@@ -52,6 +55,9 @@ package ledger
 //   M4 ledger/eval/appcow.go applyStorageDelta shallow-copies AppParams (global-state map shared with
 //                           the ledger view): only visible with a tracer, a failing group that wrote
 //                           global state, and the follow-up group (oracle c)
+// Seeded changes (independent): C19-A (app_params_set writes through a pointer into the parent cow)
+// and C19-B (box_splice mutates the kv slice in place): both DETECTED after adding the effect kinds
+// app_params_set / box_splice on state that lives in the parent cow or in the ledger.
 //   (the DESIGN mutant "recycled child cow not clearing sdeltas" / not clearing leases breaks every
 //    valid flow with two app calls, so the set-up block cannot be built: harness failure, not usable)
 
@@ -208,6 +214,18 @@ const c19appSource = `
 	txn ApplicationArgs 0; byte "reject"; ==; bz notreject
 	  int 0; return
 	notreject:
+	txn ApplicationArgs 0; byte "pset"; ==; bz notpset
+	  txn ApplicationArgs 1; btoi; app_params_set AppForeignBoxReads
+	  b end
+	notpset:
+	txn ApplicationArgs 0; byte "splice"; ==; bz notsplice
+	  txn ApplicationArgs 1; int 0; int 2; byte "ZZ"; box_splice
+	  b end
+	notsplice:
+	txn ApplicationArgs 0; byte "get"; ==; bz notget
+	  txn ApplicationArgs 1; box_get; assert; log
+	  b end
+	notget:
 	txn ApplicationArgs 0; byte "innerfail"; ==; bz bad
 	  byte "touched"; int 1; app_global_put
 	  itxn_begin
@@ -313,6 +331,14 @@ func c19newWorld(t *testing.T) (*c19world, error) {
 	}
 	if _, err := one(&txntest.Txn{Type: "axfer", Sender: w.peer, AssetReceiver: w.peer, XferAsset: w.asset}); err != nil {
 		return nil, err
+	}
+	// a box that lives in the ledger (target of box_splice when the prefix has no box)
+	{
+		lb := w.call("lbox", "box", "lbox")
+		lb.Boxes = []transactions.BoxRef{{Index: 0, Name: []byte("lbox")}}
+		if _, err := one(lb); err != nil {
+			return nil, err
+		}
 	}
 	// the app starts with non-empty global state (so that cached params own a map)
 	if _, err := one(w.call("init", "set", "init", string([]byte{0, 0, 0, 0, 0, 0, 0, 1}))); err != nil {
@@ -436,6 +462,28 @@ func (w *c19world) call(tag string, args ...string) *txntest.Txn {
 
 // effect builds the i-th effectful member. slot selects disjoint resources (opt-in account,
 // global key, box name) so that members never collide with each other or with the prefix.
+const c19nEffects = 6
+
+// effectP: like effect, plus two effect kinds that write THROUGH existing state: app_params_set
+// on the app (whose params sit in the parent cow when the prefix is P4) and box_splice on a box
+// that already exists (in the parent cow for prefix P4: the box created by P4; otherwise in the
+// ledger).
+func (w *c19world) effectP(kind int, slot int, tag string, prefix int) *txntest.Txn {
+	switch kind % c19nEffects {
+	case 4:
+		return w.call(tag, "pset", string([]byte{0, 0, 0, 0, 0, 0, 0, 1}))
+	case 5:
+		name := "lbox"
+		if prefix == c19PrefixP4 {
+			name = "b36"
+		}
+		tx := w.call(tag, "splice", name)
+		tx.Boxes = []transactions.BoxRef{{Index: 0, Name: []byte(name)}}
+		return tx
+	}
+	return w.effect(kind%c19nEffects, slot, tag)
+}
+
 func (w *c19world) effect(kind int, slot int, tag string) *txntest.Txn {
 	switch kind % 4 {
 	case 0:
@@ -458,13 +506,18 @@ func (w *c19world) prefixGroup(prefix int) []*txntest.Txn {
 		return []*txntest.Txn{{Type: "pay", Sender: w.rich, Receiver: w.peer, Amount: 3, Note: "P1"}}
 	case c19PrefixP4:
 		lp := &txntest.Txn{Type: "pay", Sender: w.rich, Receiver: w.peer, Amount: 4, Note: "P4.0", Lease: w.lease1}
-		return []*txntest.Txn{lp, w.effect(1, 36, "P4.1"), w.effect(2, 36, "P4.2"), w.effect(3, 36, "P4.3")}
+		// the last member rewrites the app params (flag off -> off): they now live in the parent cow
+		return []*txntest.Txn{lp, w.effect(1, 36, "P4.1"), w.effect(2, 36, "P4.2"), w.effect(3, 36, "P4.3"),
+			w.call("P4.4", "pset", string([]byte{0, 0, 0, 0, 0, 0, 0, 0}))}
 	}
 	return nil
 }
 
 func (w *c19world) followUp() []*txntest.Txn {
-	return []*txntest.Txn{{Type: "pay", Sender: w.peer, Receiver: w.rich, Amount: 3, Note: "V.0"}, w.effect(2, 38, "V.1")}
+	// V.2 logs the ledger box, so that a write that escaped into the ledger's cached value shows
+	get := w.call("V.2", "get", "lbox")
+	get.Boxes = []transactions.BoxRef{{Index: 0, Name: []byte("lbox")}}
+	return []*txntest.Txn{{Type: "pay", Sender: w.peer, Receiver: w.rich, Amount: 3, Note: "V.0"}, w.effect(2, 38, "V.1"), get}
 }
 
 // finish fills defaults, and groups.
@@ -500,7 +553,7 @@ func (w *c19world) build(ev *eval.BlockEvaluator, c c19case, fault bool, tag str
 	n := c.n
 	txs := make([]*txntest.Txn, 0, n+1)
 	for i := 0; i < n; i++ {
-		txs = append(txs, w.effect(i+c.rot, i, fmt.Sprintf("%s.%d", tag, i)))
+		txs = append(txs, w.effectP(i+c.rot, i, fmt.Sprintf("%s.%d", tag, i), c.prefix))
 	}
 	if !fault {
 		return w.finish(ev, txs)
@@ -850,7 +903,7 @@ func TestVerif_C19(t *testing.T) {
 	// layer 1: all single failing groups
 	var cases [][]c19case
 	sizes := []int{1, 2, 3, 4, 16, 17}
-	tracers := []bool{false, true} // quick: tracer=true only with rotation 0
+	tracers := []bool{false, true} // quick: tracer=true only with rotations 0 and 4
 	var singles []c19case
 	for _, tracer := range tracers {
 		for prefix := 0; prefix < c19nPrefixes; prefix++ {
@@ -860,8 +913,8 @@ func TestVerif_C19(t *testing.T) {
 					continue
 				}
 				for p := 0; p < n; p++ {
-					for rot := 0; rot < 4; rot++ {
-						if tracer && rot != 0 && !ve.Thorough() {
+					for rot := 0; rot < c19nEffects; rot++ {
+						if tracer && rot != 0 && rot != 4 && !ve.Thorough() {
 							continue
 						}
 						for k := c19kind(0); k < c19nKinds; k++ {
@@ -883,7 +936,7 @@ func TestVerif_C19(t *testing.T) {
 	maxN := ve.Pick(2, 3)
 	var small []c19case
 	for _, c := range singles {
-		if c.n <= maxN && c.rot == 0 && !c.tracer {
+		if c.n <= maxN && (c.rot == 0 || c.rot == 4) && !c.tracer {
 			small = append(small, c)
 		}
 	}
@@ -895,6 +948,14 @@ func TestVerif_C19(t *testing.T) {
 		}
 	}
 	var herrN, executed atomic.Int64
+	// reference results first, on the still untouched ledger
+	for prefix := 0; prefix < c19nPrefixes; prefix++ {
+		for _, tracer := range []bool{false, true} {
+			if _, err := w.reference(refs, prefix, tracer); err != nil {
+				t.Fatalf("HARNESS-FAILURE (not a verdict): reference: %v", err)
+			}
+		}
+	}
 	var herrFirst atomic.Value
 	done := r.ParallelFor(len(cases), func(i int) {
 		if r.Violations() > 20 {
@@ -936,8 +997,8 @@ func TestVerif_C19(t *testing.T) {
 	r.Set("cases_completed_all_oracles", st.cases.Load())
 	r.Set("failing_groups_already_refused_by_TestTransactionGroup", st.testGroupRejected.Load())
 	cov := ve.Coverage{
-		Rule: fmt.Sprintf("every (evaluator prefix in {empty, 1 committed payment, 1 committed 4-member effectful group}) x (group size in {1,2,3,4,16}, +17) x (failing position) x (rotation of the 4 effect kinds over the other members) x (%d failure kinds)%s, plus every ordered pair of such failing groups of size <= %d on the same evaluator; snapshot of the evaluator's pending state compared before/after each failing group, then the valid follow-up group compared with a fresh evaluator (state, generated block, block delta)",
-			int(c19nKinds), map[bool]string{false: " x (tracer off; tracer on for rotation 0)", true: " x (tracer off/on)"}[ve.Thorough()], maxN),
+		Rule: fmt.Sprintf("every (evaluator prefix in {empty, 1 committed payment, 1 committed 5-member effectful group}) x (group size in {1,2,3,4,16}, +17) x (failing position) x (rotation of the 6 effect kinds (pay, asset opt-in, app global write, box create, app_params_set on params living in the parent cow, box_splice on a box of the parent cow / the ledger) over the other members) x (%d failure kinds)%s, plus every ordered pair of such failing groups of size <= %d on the same evaluator; snapshot of the evaluator's pending state compared before/after each failing group, then the valid follow-up group compared with a fresh evaluator (state, generated block, block delta)",
+			int(c19nKinds), map[bool]string{false: " x (tracer off; tracer on for rotations 0 and 4)", true: " x (tracer off/on)"}[ve.Thorough()], maxN),
 		States:      int64(c19nPrefixes) * int64(len(tracers)),
 		Transitions: st.failGroups.Load() + 2*executed.Load(),
 		Traces:      executed.Load(),
